@@ -150,6 +150,42 @@ fn codec_trickle_sinks(w: &mut Out, rng: &mut Rng, thorough: bool) {
     }
 }
 
+/// A frame whose header is invalid in exactly ONE respect (an unknown type byte, a wrong magic, another version, a length above the
+/// bound) followed on the same stream by a well-formed frame: `read_message` reports an error — it never answers with the SECOND
+/// frame's message, whatever follows the bad header (seed C20-N: frames of an unknown kind were drained and skipped, "for forward
+/// compatibility"; the verdict on a header then depended on the bytes after it).
+fn codec_bad_header_then_good_frame(w: &mut Out, rng: &mut Rng, thorough: bool) {
+    for _ in 0..(if thorough { 200 } else { 40 }) {
+        let m = gen_msg(rng);
+        let m2 = gen_msg(rng);
+        let (mut f1, mut f2) = (Vec::new(), Vec::new());
+        if !matches!(guarded(|| Codec::new().write_message(&mut f1, &m)), Ok(Ok(()))) { continue; }
+        if !matches!(guarded(|| Codec::new().write_message(&mut f2, &m2)), Ok(Ok(()))) { continue; }
+        if f1.len() < 12 { continue; }
+        // header layout: the codec's own bytes; every single-byte change of byte k that makes `FrameHeader::decode` fail
+        for k in 0..12usize {
+            for delta in [1u8, 0x7F, 0x80, 0xFF] {
+                let mut bad = f1.clone();
+                bad[k] = bad[k].wrapping_add(delta);
+                let head: [u8; 12] = bad[..12].try_into().expect("12");
+                if FrameHeader::decode(&head).is_ok() { continue; }   // still a valid header (e.g. another known kind, another length)
+                let mut stream = bad.clone();
+                stream.extend_from_slice(&f2);
+                let r = guarded(|| Codec::new().read_message(&mut Cursor::new(&stream)));
+                w.count("readmsg/bad-header-then-good-frame");
+                if let Ok(Ok(got)) = &r {
+                    let l = w.case("readmsg -", "BADHEAD", true);
+                    w.fail(l, "invalid-header-not-an-error", &format!("header byte {k} of a frame changed by {delta:#x} (FrameHeader::decode rejects these 12 bytes); followed by a well-formed frame, read_message returned Ok({})", &desc_msg(got)[..desc_msg(got).len().min(50)]));
+                }
+                if r.is_err() {
+                    let l = w.case("readmsg -", "BADHEAD", true);
+                    w.fail(l, "panic", "read_message panicked on an invalid header followed by a valid frame");
+                }
+            }
+        }
+    }
+}
+
 /// ONE codec value used for a whole conversation: writes that fail (a refused oversize message, a transport error)
 /// and reads of frames of different sizes must leave nothing behind that changes a later message.
 fn codec_sequences(w: &mut Out, rng: &mut Rng, thorough: bool) {
@@ -255,6 +291,7 @@ Non-trivial: payload ≥ 12 bytes; distinct = distinct query lines."
     codec_sequences(w, &mut rng, thorough);
     codec_large_payloads(w, &mut rng, thorough);
     codec_trickle_sinks(w, &mut rng, thorough);
+    codec_bad_header_then_good_frame(w, &mut rng, thorough);
     let types = [MessageType::SignatureRequest, MessageType::SignatureResponse, MessageType::DeltaData, MessageType::Ack, MessageType::Error, MessageType::Ping, MessageType::Pong];
     // ---- headers
     for t in types {
